@@ -282,9 +282,25 @@ func ruleC17_2(c *Ctx) {
 			return false, false
 		})
 		closed := true
+		// returns reachable from the Decrypt call over live edges
+		reach := map[int]bool{}
+		wl := []*ssa.BasicBlock{dec.Block()}
+		for len(wl) > 0 {
+			b := wl[len(wl)-1]
+			wl = wl[:len(wl)-1]
+			if reach[b.Index] {
+				continue
+			}
+			reach[b.Index] = true
+			for _, sb := range b.Succs {
+				if pr2.LiveBlock[sb.Index] && pr2.EdgeLive(b, sb) {
+					wl = append(wl, sb)
+				}
+			}
+		}
 		pr2.LiveInstrs(func(in ssa.Instruction) {
 			r, ok := in.(*ssa.Return)
-			if !ok || len(r.Results) != 2 || !dec.Block().Dominates(r.Block()) {
+			if !ok || len(r.Results) != 2 || !reach[r.Block().Index] {
 				return
 			}
 			if !isNilConst(c.An.RetVal(r, 0)) || isNilConst(c.An.RetVal(r, 1)) {
